@@ -1,12 +1,14 @@
 //! fpreplay — run concrete inputs through the public API of the real library and print what happens.
 //!
 //! stdin: one request per line, tab separated:  `parse<TAB>INPUT`  or  `compile<TAB>INPUT<TAB>MDT`
+//!        `ast<TAB>TREE[<TAB>OPTIONS[<TAB>MDT]]` compiles a tree written in the notation `{:?}` prints (so shapes the parser
+//!        never builds can be replayed too: `Test(Type([]))`, `Action(PrintFormatted([Special(Ascii(511))]))`, …)
 //! stdout: one line per request: `OK<TAB>…` / `ERR<TAB>…` / `PANIC<TAB>message`, with \n and \t escaped.
 use std::io::BufRead;
 use std::panic;
 
 fn esc(s: &str) -> String {
-    s.replace('\\', "\\\\").replace('\n', "\\n").replace('\t', "\\t")
+    s.replace('\\', "\\\\").replace('\n', "\\n").replace('\t', "\\t").replace('\r', "\\r")
 }
 
 fn unesc(s: &str) -> String {
@@ -17,6 +19,7 @@ fn unesc(s: &str) -> String {
             match it.next() {
                 Some('n') => out.push('\n'),
                 Some('t') => out.push('\t'),
+                Some('r') => out.push('\r'),
                 Some('\\') => out.push('\\'),
                 Some(o) => {
                     out.push('\\');
@@ -31,6 +34,30 @@ fn unesc(s: &str) -> String {
     out
 }
 
+mod term;
+
+macro_rules! table_of {
+    ($c:expr) => {{
+        let mut t: Vec<String> = $c.io_map().map(|m| m.iter().map(|(k, v)| format!("{}={:?}", k, v)).collect()).unwrap_or_default();
+        t.sort();
+        t.join(";")
+    }};
+}
+
+fn compiled(exp: &lipe_find_parser::ast::Expression, opt: &lipe_find_parser::RunOptions, mdt: &str) -> Vec<String> {
+    match lipe_find_parser::compile(exp, opt) {
+        Ok(c) => {
+            let mut table: Vec<String> = c
+                .io_map()
+                .map(|m| m.iter().map(|(k, v)| format!("{}={:?}", k, v)).collect())
+                .unwrap_or_default();
+            table.sort();
+            vec!["OK".into(), c.scheme(mdt), table.join(";")]
+        }
+        Err(e) => vec!["CERR".into(), e.to_string()],
+    }
+}
+
 fn main() {
     panic::set_hook(Box::new(|_| {}));
     let stdin = std::io::stdin();
@@ -42,23 +69,55 @@ fn main() {
         }
         let res = panic::catch_unwind(|| match parts[0].as_str() {
             "parse" => match lipe_find_parser::parse(&parts[1]) {
-                Ok((opt, exp)) => format!("OK\t{:?}\t{:?}", opt, exp),
-                Err(e) => format!("ERR\t{}", e),
+                Ok((opt, exp)) => vec!["OK".into(), format!("{:?}", opt), format!("{:?}", exp)],
+                Err(e) => vec!["ERR".into(), e.to_string()],
             },
             "compile" => match lipe_find_parser::parse(&parts[1]) {
+                Ok((opt, exp)) => compiled(&exp, &opt, parts.get(2).map(|s| s.as_str()).unwrap_or("/")),
+                Err(e) => vec!["ERR".into(), e.to_string()],
+            },
+            "ast" => match term::read(&parts[1]).and_then(|t| term::expression(&t)) {
+                Ok(exp) => {
+                    let opt = match parts.get(2).filter(|s| !s.is_empty()) {
+                        Some(o) => term::read(o).and_then(|t| term::options(&t)),
+                        None => Ok(lipe_find_parser::RunOptions::default()),
+                    };
+                    match opt {
+                        Ok(opt) => compiled(&exp, &opt, parts.get(3).map(|s| s.as_str()).unwrap_or("/")),
+                        Err(e) => vec!["ERR".into(), format!("bad options notation: {}", e)],
+                    }
+                }
+                Err(e) => vec!["ERR".into(), format!("bad tree notation: {}", e)],
+            },
+            // the tree query helpers on a directly built tree (any shape, option and precedence nodes included)
+            "query" => match term::read(&parts[1]).and_then(|t| term::expression(&t)) {
+                Ok(exp) => vec!["OK".into(), exp.action().to_string(), exp.complex_frames().to_string()],
+                Err(e) => vec!["ERR".into(), format!("bad tree notation: {}", e)],
+            },
+            // the unit helpers: `units<TAB>Size-or-TimeSpec term`, e.g. KiloByte(3) -> mult and byte_size, Hour(2) -> secs
+            "units" => match term::read(&parts[1]) {
+                Ok(t) => match term::size_or_time(&t) {
+                    Ok(Ok(sz)) => vec!["OK".into(), sz.mult().to_string(), sz.byte_size().to_string()],
+                    Ok(Err(ts)) => vec!["OK".into(), ts.secs().to_string()],
+                    Err(e) => vec!["ERR".into(), e],
+                },
+                Err(e) => vec!["ERR".into(), format!("bad notation: {}", e)],
+            },
+            // one compilation rendered several times: `renders<TAB>INPUT<TAB>MDT1<TAB>MDT2…` -> every program, then the table
+            // as reported before and after the renderings
+            "renders" => match lipe_find_parser::parse(&parts[1]) {
                 Ok((opt, exp)) => match lipe_find_parser::compile(&exp, &opt) {
                     Ok(c) => {
-                        let mdt = parts.get(2).map(|s| s.as_str()).unwrap_or("/");
-                        let mut table: Vec<String> = c
-                            .io_map()
-                            .map(|m| m.iter().map(|(k, v)| format!("{}={:?}", k, v)).collect())
-                            .unwrap_or_default();
-                        table.sort();
-                        format!("OK\t{}\t{}", c.scheme(mdt), table.join(";"))
+                        let mut out = vec!["OK".to_string(), table_of!(c)];
+                        for mdt in &parts[2..] {
+                            out.push(c.scheme(mdt));
+                        }
+                        out.push(table_of!(c));
+                        out
                     }
-                    Err(e) => format!("CERR\t{}", e),
+                    Err(e) => vec!["CERR".into(), e.to_string()],
                 },
-                Err(e) => format!("ERR\t{}", e),
+                Err(e) => vec!["ERR".into(), e.to_string()],
             },
             // compile with the wall clock read before and after the call (for the clock-window clause of C15)
             "timed" => {
@@ -69,21 +128,21 @@ fn main() {
                         let r = lipe_find_parser::compile(&exp, &opt);
                         let t1 = now();
                         match r {
-                            Ok(c) => format!("OK\t{}\t{}\t{}", t0, t1, c.scheme("/")),
-                            Err(e) => format!("CERR\t{}", e),
+                            Ok(c) => vec!["OK".into(), t0.to_string(), t1.to_string(), c.scheme("/")],
+                            Err(e) => vec!["CERR".into(), e.to_string()],
                         }
                     }
-                    Err(e) => format!("ERR\t{}", e),
+                    Err(e) => vec!["ERR".into(), e.to_string()],
                 }
             }
             "sleep" => {
                 std::thread::sleep(std::time::Duration::from_millis(parts[1].parse().unwrap_or(0)));
-                "OK\tslept".to_string()
+                vec!["OK".into(), "slept".into()]
             }
-            other => format!("ERR\tunknown request {}", other),
+            other => vec!["ERR".into(), format!("unknown request {}", other)],
         });
         match res {
-            Ok(s) => println!("{}", esc(&s).replace("\\t", "\t")),
+            Ok(fields) => println!("{}", fields.iter().map(|f| esc(f)).collect::<Vec<_>>().join("\t")),
             Err(p) => {
                 let msg = p
                     .downcast_ref::<String>()
